@@ -29,7 +29,7 @@ Fixpoint set (a : nat) (x : X) (d : dict X) : dict X :=
   end.
 End Dict.
 
-(* ------------------------------------------------------------------ the scripted environment family *)
+(* ------------------------------------------------------------------ observation spaces and transitions *)
 (* observation space: a plain space, or a Dict / Tuple of member spaces; every member is described by
    its shape ([] = Discrete or a rank-0 Box) and by whether its dtype is unsigned (uint8) *)
 Inductive ostruct := SPlain | SDict | STuple.
@@ -39,13 +39,6 @@ Definition KImage : okind := {| ostr := SPlain; mshapes := [[2; 2; 2]]; munsigne
 Definition KDiscrete : okind := {| ostr := SPlain; mshapes := [[]]; munsigned := [false] |}.
 Definition KDict : okind := {| ostr := SDict; mshapes := [[2]; []]; munsigned := [false; false] |}.
 Definition KTuple : okind := {| ostr := STuple; mshapes := [[2]; [1; 2]; []]; munsigned := [false; false; false] |}.
-Inductive emode := MTerm | MTrunc | MMixed.
-
-Record senv := { eid : Z; nag : nat; lens : list nat; mode : emode; leave : list (option nat); kind : okind;
-                 unaligned : bool (* the truncation dict lists the agents in reverse order *) }.
-Record sstate := { base : Z; ord : nat; tm : nat; live : list nat }.
-Definition init_state : sstate := {| base := 0; ord := 0; tm := 0; live := [] |}.
-
 Definition obs_t := list (list Z).     (* members of the observation, each flattened row-major *)
 Definition info_t := list (nat * Z).   (* key id (0 = "tag", 1 = "first") -> value *)
 
@@ -63,64 +56,11 @@ Definition enc_member (u : bool) (m : nat) (sh : list nat) (f0 f1 f2 f3 : Z) : l
 Definition encode (k : okind) (f0 f1 f2 f3 : Z) : obs_t :=
   imap (fun m sh => enc_member (nth m (munsigned k) false) m sh f0 f1 f2 f3) 0 (mshapes k).
 
-Definition observe (E : senv) (s : sstate) (a : nat) (echo : Z) : obs_t :=
-  encode (kind E) (eid E) (base s + Z.of_nat (ord s)) (16 * Z.of_nat (tm s) + Z.of_nat a) echo.
-Definition info_of (s : sstate) (a : nat) (first : bool) : info_t :=
-  (0, (1000 * Z.of_nat (ord s) + 16 * Z.of_nat (tm s) + Z.of_nat a)%Z) :: (if first then [(1, 1%Z)] else []).
-
-(* env.reset(seed) *)
-Definition env_reset (E : senv) (s : sstate) (seed : option Z) : sstate * (dict obs_t * dict info_t) :=
-  let s' := {| base := match seed with Some z => z | None => base s end;
-               ord := S (ord s); tm := 0; live := seq 0 (nag E) |} in
-  (s', (map (fun a => (a, observe E s' a 0%Z)) (live s'),
-        map (fun a => (a, info_of s' a true)) (live s'))).
-
-Definition cur_len (E : senv) (s : sstate) : nat := nth (ord s mod length (lens E)) (lens E) 1.
-Definition leaves (E : senv) (a t : nat) : bool :=
-  match nth a (leave E) None with Some k => Nat.eqb k t | None => false end.
-Definition term_of (E : senv) (s : sstate) (endT : bool) (a : nat) : bool :=
-  (endT && match mode E with MTerm => true | MTrunc => false | MMixed => Nat.even (a + ord s) end)
-  || leaves E a (tm s).
-Definition trunc_of (E : senv) (s : sstate) (endT : bool) (a : nat) : bool :=
-  endT && match mode E with MTerm => false | MTrunc => true | MMixed => negb (Nat.even (a + ord s)) end.
-
 (* one transition as returned by env.step: five dicts over the agents alive at the start of the step *)
 Record trans := mkTrans { tobs : dict obs_t; trew : dict Z; tterm : dict bool; ttrunc : dict bool;
                           tinfo : dict info_t }.
 
-(* env.step(actions); [acts] is positional over the possible agents *)
-Definition raw_step (E : senv) (s : sstate) (acts : list Z) : sstate * trans :=
-  let s1 := {| base := base s; ord := ord s; tm := S (tm s); live := live s |} in
-  let endT := cur_len E s <=? tm s1 in
-  let L := live s in
-  let done := fun a => term_of E s1 endT a || trunc_of E s1 endT a in
-  ({| base := base s; ord := ord s; tm := S (tm s); live := filter (fun a => negb (done a)) L |},
-   {| tobs := map (fun a => (a, observe E s1 a (nth a acts 0%Z))) L;
-      trew := map (fun a => (a, (100 * Z.of_nat (tm s1) + 10 * Z.of_nat a + nth a acts 0)%Z)) L;
-      tterm := map (fun a => (a, term_of E s1 endT a)) L;
-      ttrunc := (if unaligned E then @rev _ else fun l => l) (map (fun a => (a, trunc_of E s1 endT a)) L);
-      tinfo := map (fun a => (a, info_of s1 a false)) L |}).
-
-(* ------------------------------------------------------------------ the reference: environment i stepped
-   alone under auto-reset. When no agent is left alive the environment is reset and the observation
-   (and info) returned is the first one of the new episode. *)
-Definition no_agent_left (s : sstate) : bool := match live s with [] => true | _ => false end.
-Definition single_step (E : senv) (s : sstate) (acts : list Z) : sstate * trans :=
-  let '(s1, tr) := raw_step E s acts in
-  if no_agent_left s1 then
-    let '(s2, (o, i)) := env_reset E s1 None in
-    (s2, {| tobs := o; trew := trew tr; tterm := tterm tr; ttrunc := ttrunc tr; tinfo := i |})
-  else (s1, tr).
-
-Fixpoint single_run (step : senv -> sstate -> list Z -> sstate * trans)
-         (E : senv) (s : sstate) (actss : list (list Z)) : sstate * list trans :=
-  match actss with
-  | [] => (s, [])
-  | a :: rest => let '(s', o) := step E s a in
-                 let '(sf, os) := single_run step E s' rest in (sf, o :: os)
-  end.
-
-(* ------------------------------------------------------------------ the worker (_async_worker) *)
+(* ------------------------------------------------------------------ placeholders, done-tests *)
 (* get_placeholder_value: -np.ones(shape) written through np.asarray(.., dtype): uint8 wraps to 255 *)
 Definition ph_value (u : bool) : Z := if u then 255%Z else (-1)%Z.
 Definition placeholder_obs (k : okind) : obs_t :=
@@ -145,33 +85,83 @@ Definition all_done_keys (tr : trans) : bool :=
 Definition all_done_zip (tr : trans) : bool :=
   forallb (fun p => fst p || snd p) (combine (vals (tterm tr)) (vals (ttrunc tr))).
 
-(* command == "step": step, reset if every agent is done, THEN build the transition, fill, (write) *)
-Definition worker_step_with (test : trans -> bool) (E : senv) (agents : list nat) (s : sstate) (acts : list Z)
-  : sstate * trans :=
-  let '(s1, tr) := raw_step E s acts in
+
+(* ================================================================== generic in the environment ======
+   An environment is given by its step / reset functions, its observation-space description and the
+   list of agents alive in a state (PettingZoo's env.agents). Everything the vector environment and
+   the wrapper do is defined over this interface; the scripted family below is one instance. *)
+Section Env.
+Context {env state : Type}.
+Variable e_step : env -> state -> list Z -> state * trans.          (* env.step; actions positional *)
+Variable e_reset : env -> state -> option Z -> state * (dict obs_t * dict info_t).   (* env.reset(seed) *)
+Variable e_kind : env -> okind.
+Variable e_live : state -> list nat.                               (* env.agents *)
+
+(* the reference: the environment stepped alone under auto-reset. When no agent is left alive the
+   environment is reset and the observation (and info) returned is the first one of the new episode *)
+Definition g_no_agent_left (s : state) : bool := match e_live s with [] => true | _ => false end.
+Definition g_single_step (E : env) (s : state) (acts : list Z) : state * trans :=
+  let '(s1, tr) := e_step E s acts in
+  if g_no_agent_left s1 then
+    let '(s2, (o, i)) := e_reset E s1 None in
+    (s2, {| tobs := o; trew := trew tr; tterm := tterm tr; ttrunc := ttrunc tr; tinfo := i |})
+  else (s1, tr).
+
+Fixpoint g_run (step : env -> state -> list Z -> state * trans)
+         (E : env) (s : state) (actss : list (list Z)) : state * list trans :=
+  match actss with
+  | [] => (s, [])
+  | a :: rest => let '(s', o) := step E s a in
+                 let '(sf, os) := g_run step E s' rest in (sf, o :: os)
+  end.
+
+(* _async_worker, command == "step": step, reset if every agent is done, THEN build the transition,
+   fill in the agents that left, (write the observation,) send the rest *)
+Definition g_worker_step_with (test : trans -> bool) (E : env) (agents : list nat) (s : state) (acts : list Z)
+  : state * trans :=
+  let '(s1, tr) := e_step E s acts in
   let '(s2, o, i) := if test tr
-                     then let '(s2, (o, i)) := env_reset E s1 None in (s2, o, i)
+                     then let '(s2, (o, i)) := e_reset E s1 None in (s2, o, i)
                      else (s1, tobs tr, tinfo tr) in
-  (s2, process_transition (kind E) agents
+  (s2, process_transition (e_kind E) agents
          {| tobs := o; trew := trew tr; tterm := tterm tr; ttrunc := ttrunc tr; tinfo := i |}).
-Definition worker_step := worker_step_with all_done_keys.
-Definition worker_step_zip := worker_step_with all_done_zip.
+Definition g_worker_step := g_worker_step_with all_done_keys.
+Definition g_worker_step_zip := g_worker_step_with all_done_zip.
 
 (* command == "reset" *)
-Definition worker_reset (E : senv) (agents : list nat) (s : sstate) (seed : option Z)
-  : sstate * (dict obs_t * dict info_t) :=
-  let '(s', (o, i)) := env_reset E s seed in
-  (s', (fill agents (placeholder_obs (kind E)) o, fill agents [] i)).
+Definition g_worker_reset (E : env) (agents : list nat) (s : state) (seed : option Z)
+  : state * (dict obs_t * dict info_t) :=
+  let '(s', (o, i)) := e_reset E s seed in
+  (s', (fill agents (placeholder_obs (e_kind E)) o, fill agents [] i)).
 
 (* the worker of the tree before commit 8e2ceb2: transition captured BEFORE the reset, and
    process_transition assigned to its loop variable (no effect); the parent then indexes every
    possible agent, which raises KeyError (None) when an agent has left *)
-Definition worker_step_pinned (E : senv) (agents : list nat) (s : sstate) (acts : list Z)
-  : sstate * option trans :=
-  let '(s1, tr) := raw_step E s acts in
-  let s2 := if all_done_zip tr then fst (env_reset E s1 None) else s1 in
+Definition g_worker_step_pinned (E : env) (agents : list nat) (s : state) (acts : list Z)
+  : state * option trans :=
+  let '(s1, tr) := e_step E s acts in
+  let s2 := if all_done_zip tr then fst (e_reset E s1 None) else s1 in
   (s2, if forallb (fun a => match lookup a (trew tr) with Some _ => true | None => false end) agents
        then Some tr else None).
+
+(* PettingZooAutoResetParallelWrapper.step:
+   all(terminations[agent] or truncations[agent] for agent in terminations.keys()) = all_done_keys *)
+Definition g_wrapper_step (E : env) (s : state) (acts : list Z) : state * trans :=
+  let '(s1, tr) := e_step E s acts in
+  if all_done_keys tr then
+    let '(s2, (o, i)) := e_reset E s1 None in
+    (s2, {| tobs := o; trew := trew tr; tterm := tterm tr; ttrunc := ttrunc tr; tinfo := i |})
+  else (s1, tr).
+(* before commit 8e2ceb2: np.all(list(terminations.values()) or list(truncations.values())) —
+   a non-empty list is truthy, so the truncations are never looked at *)
+Definition g_wrapper_step_pinned (E : env) (s : state) (acts : list Z) : state * trans :=
+  let '(s1, tr) := e_step E s acts in
+  let l := match vals (tterm tr) with [] => vals (ttrunc tr) | l => l end in
+  if forallb (fun b => b) l then
+    let '(s2, (o, i)) := e_reset E s1 None in
+    (s2, {| tobs := o; trew := trew tr; tterm := tterm tr; ttrunc := ttrunc tr; tinfo := i |})
+  else (s1, tr).
+End Env.
 
 (* ------------------------------------------------------------------ shared memory *)
 (* per agent: one flat buffer of num_envs * size per member of the observation space *)
@@ -199,6 +189,14 @@ Definition write_shm (i : nat) (k : okind) (o : dict obs_t) (m : shm) : shm :=
                           | Some ob => write_members i (mshapes k) ob (snd ab)
                           | None => snd ab
                           end)) m.
+
+(* the loop exactly as written: for agent, obs in observation.items(): ... shared_memory[agent] ...
+   (equal to write_shm, see write_shm_loop_spec) *)
+Definition write_shm_loop (i : nat) (k : okind) (o : dict obs_t) (m : shm) : shm :=
+  fold_left (fun m ao => match lookup (fst ao) m with
+                         | Some bufs => set (fst ao) (write_members i (mshapes k) (snd ao) bufs) m
+                         | None => m            (* KeyError: not reachable, the keys are the agents *)
+                         end) o m.
 
 (* Observations.__getitem__: reshape to (num_envs, *shape); () becomes (1,) except inside a Tuple *)
 Definition ret_shape (k : okind) (sh : list nat) : list nat :=
@@ -235,27 +233,39 @@ Definition gather_info (n : nat) (infos : list (dict info_t)) : vinfo :=
 Definition gather {X} (agents : list nat) (sel : trans -> dict X) (d : X) (outs : list trans) : dict (list X) :=
   map (fun a => (a, map (fun o => get a (sel o) d) outs)) agents.
 
-Record vstate := { vstates : list sstate; vmem : shm }.
+Record gvstate (state : Type) := { vstates : list state; vmem : shm }.
+Arguments vstates {state} _.
+Arguments vmem {state} _.
 Record vout := { vobs : dict (list varr); vrew : dict (list Z); vterm : dict (list bool);
                  vtrunc : dict (list bool); vinfos : vinfo }.
 
-(* the workers, in index order (they write disjoint slices: see write_commute in Proofs.v) *)
-Fixpoint workers_step (agents : list nat) (i : nat) (Es : list senv) (ss : list sstate)
-         (acts : list (list Z)) (m : shm) : list sstate * list trans * shm :=
+(* ================================================================== generic in the worker ===========
+   The parent side (reset_wait / step_wait / PettingZooVecEnv.step) only sees what the workers send
+   and write; it is defined over arbitrary worker functions. *)
+Section Parent.
+Context {env state : Type}.
+Variable wstep : env -> list nat -> state -> list Z -> state * trans.
+Variable wreset : env -> list nat -> state -> option Z -> state * (dict obs_t * dict info_t).
+Variable ekind : env -> okind.
+Variable s_init : state.
+
+(* the workers, in index order (they write disjoint slices: see write_commute) *)
+Fixpoint g_workers_step (agents : list nat) (i : nat) (Es : list env) (ss : list state)
+         (acts : list (list Z)) (m : shm) : list state * list trans * shm :=
   match Es, ss, acts with
   | E :: Es', s :: ss', a :: acts' =>
-      let '(s', out) := worker_step E agents s a in
-      let m' := write_shm i (kind E) (tobs out) m in
-      let '(rs, ro, mf) := workers_step agents (S i) Es' ss' acts' m' in
+      let '(s', out) := wstep E agents s a in
+      let m' := write_shm i (ekind E) (tobs out) m in
+      let '(rs, ro, mf) := g_workers_step agents (S i) Es' ss' acts' m' in
       (s' :: rs, out :: ro, mf)
   | _, _, _ => ([], [], m)
   end.
 
-Definition vec_step (k : okind) (agents : list nat) (Es : list senv) (st : vstate)
-           (actions : dict (list Z)) : vstate * vout :=
+Definition g_vec_step (k : okind) (agents : list nat) (Es : list env) (st : gvstate state)
+           (actions : dict (list Z)) : gvstate state * vout :=
   let n := length Es in
   let per_env := transpose_actions agents actions 0%Z in
-  let '(ss', outs, m') := workers_step agents 0 Es (vstates st) per_env (vmem st) in
+  let '(ss', outs, m') := g_workers_step agents 0 Es (vstates st) per_env (vmem st) in
   ({| vstates := ss'; vmem := m' |},
    {| vobs := read_obs n k m';
       vrew := gather agents trew 0%Z outs;
@@ -263,48 +273,93 @@ Definition vec_step (k : okind) (agents : list nat) (Es : list senv) (st : vstat
       vtrunc := gather agents ttrunc false outs;
       vinfos := gather_info n (map tinfo outs) |}).
 
-Fixpoint workers_reset (agents : list nat) (i : nat) (Es : list senv) (ss : list sstate)
-         (seed : option Z) (m : shm) : list sstate * list (dict info_t) * shm :=
+Fixpoint g_workers_reset (agents : list nat) (i : nat) (Es : list env) (ss : list state)
+         (seed : option Z) (m : shm) : list state * list (dict info_t) * shm :=
   match Es, ss with
   | E :: Es', s :: ss' =>
-      let '(s', (o, inf)) := worker_reset E agents s (option_map (fun z => (z + Z.of_nat i)%Z) seed) in
-      let m' := write_shm i (kind E) o m in
-      let '(rs, ri, mf) := workers_reset agents (S i) Es' ss' seed m' in
+      let '(s', (o, inf)) := wreset E agents s (option_map (fun z => (z + Z.of_nat i)%Z) seed) in
+      let m' := write_shm i (ekind E) o m in
+      let '(rs, ri, mf) := g_workers_reset agents (S i) Es' ss' seed m' in
       (s' :: rs, inf :: ri, mf)
   | _, _ => ([], [], m)
   end.
 
-Definition vec_reset (k : okind) (agents : list nat) (Es : list senv) (st : vstate) (seed : option Z)
-  : vstate * (dict (list varr) * vinfo) :=
+Definition g_vec_reset (k : okind) (agents : list nat) (Es : list env) (st : gvstate state) (seed : option Z)
+  : gvstate state * (dict (list varr) * vinfo) :=
   let n := length Es in
-  let '(ss', infos, m') := workers_reset agents 0 Es (vstates st) seed (vmem st) in
+  let '(ss', infos, m') := g_workers_reset agents 0 Es (vstates st) seed (vmem st) in
   ({| vstates := ss'; vmem := m' |}, (read_obs n k m', gather_info n infos)).
 
-Definition vec_init (k : okind) (agents : list nat) (Es : list senv) : vstate :=
-  {| vstates := map (fun _ => init_state) Es; vmem := create_shared_memory (length Es) k agents |}.
+Definition g_vec_init (k : okind) (agents : list nat) (Es : list env) : gvstate state :=
+  {| vstates := map (fun _ => s_init) Es; vmem := create_shared_memory (length Es) k agents |}.
 
-Fixpoint vec_run (k : okind) (agents : list nat) (Es : list senv) (st : vstate)
-         (actss : list (dict (list Z))) : vstate * list vout :=
+Fixpoint g_vec_run (k : okind) (agents : list nat) (Es : list env) (st : gvstate state)
+         (actss : list (dict (list Z))) : gvstate state * list vout :=
   match actss with
   | [] => (st, [])
-  | a :: rest => let '(st', o) := vec_step k agents Es st a in
-                 let '(stf, os) := vec_run k agents Es st' rest in (stf, o :: os)
+  | a :: rest => let '(st', o) := g_vec_step k agents Es st a in
+                 let '(stf, os) := g_vec_run k agents Es st' rest in (stf, o :: os)
   end.
+End Parent.
 
-(* ------------------------------------------------------------------ PettingZooAutoResetParallelWrapper *)
-(* all(terminations[agent] or truncations[agent] for agent in terminations.keys()) = all_done_keys *)
-Definition wrapper_step (E : senv) (s : sstate) (acts : list Z) : sstate * trans :=
-  let '(s1, tr) := raw_step E s acts in
-  if all_done_keys tr then
-    let '(s2, (o, i)) := env_reset E s1 None in
-    (s2, {| tobs := o; trew := trew tr; tterm := tterm tr; ttrunc := ttrunc tr; tinfo := i |})
-  else (s1, tr).
-(* before commit 8e2ceb2: np.all(list(terminations.values()) or list(truncations.values())) —
-   a non-empty list is truthy, so the truncations are never looked at *)
-Definition wrapper_step_pinned (E : senv) (s : sstate) (acts : list Z) : sstate * trans :=
-  let '(s1, tr) := raw_step E s acts in
-  let l := match vals (tterm tr) with [] => vals (ttrunc tr) | l => l end in
-  if forallb (fun b => b) l then
-    let '(s2, (o, i)) := env_reset E s1 None in
-    (s2, {| tobs := o; trew := trew tr; tterm := tterm tr; ttrunc := ttrunc tr; tinfo := i |})
-  else (s1, tr).
+(* ================================================================== the scripted environment family *)
+Inductive emode := MTerm | MTrunc | MMixed.
+
+Record senv := { eid : Z; nag : nat; lens : list nat; mode : emode; leave : list (option nat); kind : okind;
+                 unaligned : bool (* the truncation dict lists the agents in reverse order *) }.
+Record sstate := { base : Z; ord : nat; tm : nat; live : list nat }.
+Definition init_state : sstate := {| base := 0; ord := 0; tm := 0; live := [] |}.
+
+Definition observe (E : senv) (s : sstate) (a : nat) (echo : Z) : obs_t :=
+  encode (kind E) (eid E) (base s + Z.of_nat (ord s)) (16 * Z.of_nat (tm s) + Z.of_nat a) echo.
+Definition info_of (s : sstate) (a : nat) (first : bool) : info_t :=
+  (0, (1000 * Z.of_nat (ord s) + 16 * Z.of_nat (tm s) + Z.of_nat a)%Z) :: (if first then [(1, 1%Z)] else []).
+
+(* env.reset(seed) *)
+Definition env_reset (E : senv) (s : sstate) (seed : option Z) : sstate * (dict obs_t * dict info_t) :=
+  let s' := {| base := match seed with Some z => z | None => base s end;
+               ord := S (ord s); tm := 0; live := seq 0 (nag E) |} in
+  (s', (map (fun a => (a, observe E s' a 0%Z)) (live s'),
+        map (fun a => (a, info_of s' a true)) (live s'))).
+
+Definition cur_len (E : senv) (s : sstate) : nat := nth (ord s mod length (lens E)) (lens E) 1.
+Definition leaves (E : senv) (a t : nat) : bool :=
+  match nth a (leave E) None with Some k => Nat.eqb k t | None => false end.
+Definition term_of (E : senv) (s : sstate) (endT : bool) (a : nat) : bool :=
+  (endT && match mode E with MTerm => true | MTrunc => false | MMixed => Nat.even (a + ord s) end)
+  || leaves E a (tm s).
+Definition trunc_of (E : senv) (s : sstate) (endT : bool) (a : nat) : bool :=
+  endT && match mode E with MTerm => false | MTrunc => true | MMixed => negb (Nat.even (a + ord s)) end.
+
+(* env.step(actions); [acts] is positional over the possible agents *)
+Definition raw_step (E : senv) (s : sstate) (acts : list Z) : sstate * trans :=
+  let s1 := {| base := base s; ord := ord s; tm := S (tm s); live := live s |} in
+  let endT := cur_len E s <=? tm s1 in
+  let L := live s in
+  let done := fun a => term_of E s1 endT a || trunc_of E s1 endT a in
+  ({| base := base s; ord := ord s; tm := S (tm s); live := filter (fun a => negb (done a)) L |},
+   {| tobs := map (fun a => (a, observe E s1 a (nth a acts 0%Z))) L;
+      trew := map (fun a => (a, (100 * Z.of_nat (tm s1) + 10 * Z.of_nat a + nth a acts 0)%Z)) L;
+      tterm := map (fun a => (a, term_of E s1 endT a)) L;
+      ttrunc := (if unaligned E then @rev _ else fun l => l) (map (fun a => (a, trunc_of E s1 endT a)) L);
+      tinfo := map (fun a => (a, info_of s1 a false)) L |}).
+
+
+(* ------------------------------------------------------------------ the instance used by the check *)
+Definition no_agent_left : sstate -> bool := g_no_agent_left live.
+Definition single_step := g_single_step raw_step env_reset live.
+Definition single_run := @g_run senv sstate.
+Definition worker_step_with (test : trans -> bool) := g_worker_step_with raw_step env_reset kind test.
+Definition worker_step := g_worker_step raw_step env_reset kind.
+Definition worker_step_zip := g_worker_step_zip raw_step env_reset kind.
+Definition worker_reset := g_worker_reset env_reset kind.
+Definition worker_step_pinned := g_worker_step_pinned raw_step env_reset.
+Definition wrapper_step := g_wrapper_step raw_step env_reset.
+Definition wrapper_step_pinned := g_wrapper_step_pinned raw_step env_reset.
+Definition vstate := gvstate sstate.
+Definition workers_step := g_workers_step worker_step kind.
+Definition vec_step := g_vec_step worker_step kind.
+Definition workers_reset := g_workers_reset worker_reset kind.
+Definition vec_reset := g_vec_reset worker_reset kind.
+Definition vec_init := @g_vec_init senv sstate init_state.
+Definition vec_run := g_vec_run worker_step kind.
